@@ -37,7 +37,8 @@ BINOP_METHOD = {ast.Div: "__truediv__", ast.Mod: "__mod__"}
 
 
 class Ctx:
-    def __init__(self, repo: Optional[Repo] = None):
+    def __init__(self, repo: Optional[Repo] = None, deep: bool = False):
+        self.deep = deep  # thorough tier: one more loop unrolling, larger path budgets
         self.repo = repo or Repo()
         self.res = Resolver(self.repo)
         self.regs = registrations(self.repo, self.res)
@@ -112,6 +113,12 @@ class Ctx:
 
     def paths(self, module: Module, func: ast.FunctionDef, max_iter: int = 2,
               assert_paths: bool = False, prune: bool = True, max_paths: int = 40000) -> List[List[Step]]:
+        if self.deep and max_iter == 1 and max_paths == 40000:
+            # rules that ask for a single unrolling get two in the thorough tier (when affordable)
+            try:
+                return self.paths(module, func, max_iter=2, assert_paths=assert_paths, prune=prune, max_paths=6000)
+            except AnalysisError:
+                pass
         key = (id(func), max_iter, assert_paths, prune)
         if key not in self._paths:
             interp = Interp(
@@ -133,8 +140,13 @@ class Ctx:
         """Loops unrolled twice when that stays within ``budget`` paths, else once."""
         from .paths import TooManyPaths
 
+        if self.deep:
+            try:
+                return self.paths(module, func, max_iter=3, max_paths=4 * budget)
+            except TooManyPaths:
+                pass
         try:
-            return self.paths(module, func, max_iter=2, max_paths=budget)
+            return self.paths(module, func, max_iter=2, max_paths=(6 if self.deep else 1) * budget)
         except TooManyPaths:
             return self.paths(module, func, max_iter=1)
 
